@@ -261,9 +261,9 @@ package mcp
 //@ func (*Server).queueToolsUseAdminProxy
 //@   trusted
 //@ func messageManageFilterPayload
-//@   trusted
+//@   ensures [C14:the_admin_proxy_payload_carries_the_parsed_filter] result != nil && "limit" in result && result["limit"] == req.Limit && "preview_only" in result && result["preview_only"] == req.PreviewOnly && (req.Route != "" ==> "route" in result && result["route"] == req.Route) && (req.Route == "" ==> !("route" in result)) && (req.Target != "" ==> "target" in result && result["target"] == req.Target) && (req.Target == "" ==> !("target" in result)) && (req.State != "" ==> "state" in result && result["state"] == string(req.State)) && (req.State == "" ==> !("state" in result)) && ((req.Before != 0) == ("before" in result)) && (application != "" ==> result["application"] == application && result["endpoint_name"] == endpointName)
 //@ func scopedMessageManageFilterPayload
-//@   trusted
+//@   ensures [C14:the_scoped_admin_proxy_payload_carries_the_parsed_filter] result != nil && "limit" in result && result["limit"] == req.Limit && "preview_only" in result && result["preview_only"] == req.PreviewOnly && !("route" in result) && (req.Target != "" ==> "target" in result && result["target"] == req.Target) && (req.Target == "" ==> !("target" in result)) && (req.State != "" ==> "state" in result && result["state"] == string(req.State)) && (req.State == "" ==> !("state" in result)) && ((req.Before != 0) == ("before" in result))
 //@ func validateScopedManagedAuditPolicyForFilterMutation
 //@   trusted
 //@ func (*Server).validateRouteScopedManagedAuditPolicyForFilterMutation
@@ -292,6 +292,9 @@ package mcp
 //@   requires s != nil
 //@   modifies *
 //@   preserves Server.*
+//@   calls messageManageFilterPayload requires [C14:the_admin_proxy_payload_is_built_from_the_parsed_filter] mcpFilterOK && arg0.Limit == mcpFilterLimit && arg0.PreviewOnly == mcpFilterPreview && arg0.State == mcpFilterState && arg0.Target == mcpFilterTarget && arg0.Before == mcpFilterBefore
+//@   calls scopedMessageManageFilterPayload requires [C14:the_scoped_admin_proxy_payload_is_built_from_the_parsed_filter] mcpFilterOK && arg0.Limit == mcpFilterLimit && arg0.PreviewOnly == mcpFilterPreview && arg0.State == mcpFilterState && arg0.Target == mcpFilterTarget && arg0.Before == mcpFilterBefore
+//@   calls (*Server).callAdminJSON requires [C14:the_admin_proxy_is_asked_for_this_operation] arg2 == "POST" && (local(application) == "" ==> arg3 == "/messages/cancel_by_filter") && filterMutations == old(filterMutations)
 //@   calls parseMessageManageFilterArgs requires [C14:cancel_by_filter_may_name_only_queued_leased_dead] forall st queue.State :: st in arg1 ==> st == queue.StateQueued || st == queue.StateLeased || st == queue.StateDead
 //@   calls queue.(*SQLiteStore).CancelMessagesByFilter requires [C14:the_store_gets_exactly_the_parsed_filter_on_the_resolved_route] mcpFilterOK && arg1.Limit == mcpFilterLimit && arg1.State == mcpFilterState && arg1.Target == mcpFilterTarget && arg1.PreviewOnly == mcpFilterPreview && arg1.Before == mcpFilterBefore && mcpResolvedOK && arg1.Route == mcpResolvedRoute && filterMutations == old(filterMutations)
 //@   ensures [C14:at_most_one_store_mutation_per_call] filterMutations <= old(filterMutations) + 1
@@ -303,6 +306,9 @@ package mcp
 //@   requires s != nil
 //@   modifies *
 //@   preserves Server.*
+//@   calls messageManageFilterPayload requires [C14:the_admin_proxy_payload_is_built_from_the_parsed_filter] mcpFilterOK && arg0.Limit == mcpFilterLimit && arg0.PreviewOnly == mcpFilterPreview && arg0.State == mcpFilterState && arg0.Target == mcpFilterTarget && arg0.Before == mcpFilterBefore
+//@   calls scopedMessageManageFilterPayload requires [C14:the_scoped_admin_proxy_payload_is_built_from_the_parsed_filter] mcpFilterOK && arg0.Limit == mcpFilterLimit && arg0.PreviewOnly == mcpFilterPreview && arg0.State == mcpFilterState && arg0.Target == mcpFilterTarget && arg0.Before == mcpFilterBefore
+//@   calls (*Server).callAdminJSON requires [C14:the_admin_proxy_is_asked_for_this_operation] arg2 == "POST" && (local(application) == "" ==> arg3 == "/messages/requeue_by_filter") && filterMutations == old(filterMutations)
 //@   calls parseMessageManageFilterArgs requires [C14:requeue_by_filter_may_name_only_dead_canceled] forall st queue.State :: st in arg1 ==> st == queue.StateDead || st == queue.StateCanceled
 //@   calls queue.(*SQLiteStore).RequeueMessagesByFilter requires [C14:the_store_gets_exactly_the_parsed_filter_on_the_resolved_route] mcpFilterOK && arg1.Limit == mcpFilterLimit && arg1.State == mcpFilterState && arg1.Target == mcpFilterTarget && arg1.PreviewOnly == mcpFilterPreview && arg1.Before == mcpFilterBefore && mcpResolvedOK && arg1.Route == mcpResolvedRoute && filterMutations == old(filterMutations)
 //@   ensures [C14:at_most_one_store_mutation_per_call] filterMutations <= old(filterMutations) + 1
@@ -314,6 +320,9 @@ package mcp
 //@   requires s != nil
 //@   modifies *
 //@   preserves Server.*
+//@   calls messageManageFilterPayload requires [C14:the_admin_proxy_payload_is_built_from_the_parsed_filter] mcpFilterOK && arg0.Limit == mcpFilterLimit && arg0.PreviewOnly == mcpFilterPreview && arg0.State == mcpFilterState && arg0.Target == mcpFilterTarget && arg0.Before == mcpFilterBefore
+//@   calls scopedMessageManageFilterPayload requires [C14:the_scoped_admin_proxy_payload_is_built_from_the_parsed_filter] mcpFilterOK && arg0.Limit == mcpFilterLimit && arg0.PreviewOnly == mcpFilterPreview && arg0.State == mcpFilterState && arg0.Target == mcpFilterTarget && arg0.Before == mcpFilterBefore
+//@   calls (*Server).callAdminJSON requires [C14:the_admin_proxy_is_asked_for_this_operation] arg2 == "POST" && (local(application) == "" ==> arg3 == "/messages/resume_by_filter") && filterMutations == old(filterMutations)
 //@   calls parseMessageManageFilterArgs requires [C14:resume_by_filter_may_name_only_canceled] forall st queue.State :: st in arg1 ==> st == queue.StateCanceled
 //@   calls queue.(*SQLiteStore).ResumeMessagesByFilter requires [C14:the_store_gets_exactly_the_parsed_filter_on_the_resolved_route] mcpFilterOK && arg1.Limit == mcpFilterLimit && arg1.State == mcpFilterState && arg1.Target == mcpFilterTarget && arg1.PreviewOnly == mcpFilterPreview && arg1.Before == mcpFilterBefore && mcpResolvedOK && arg1.Route == mcpResolvedRoute && filterMutations == old(filterMutations)
 //@   ensures [C14:at_most_one_store_mutation_per_call] filterMutations <= old(filterMutations) + 1
